@@ -125,11 +125,19 @@ type Actor struct {
 	rec    reconcile.Reconciler
 }
 
+var (
+	schemeOnce   sync.Once
+	sharedScheme *runtime.Scheme
+)
+
 // NewCluster builds an empty cluster with the four reconcilers.
 func NewCluster(opts Options) *Cluster {
-	s := runtime.NewScheme()
-	_ = clientgoscheme.AddToScheme(s)
-	_ = edsv1.AddToScheme(s)
+	schemeOnce.Do(func() {
+		sharedScheme = runtime.NewScheme()
+		_ = clientgoscheme.AddToScheme(sharedScheme)
+		_ = edsv1.AddToScheme(sharedScheme)
+	})
+	s := sharedScheme
 	codecs := serializer.NewCodecFactory(s)
 	tracker := clienttesting.NewObjectTracker(s, codecs.UniversalDecoder())
 	base := fake.NewClientBuilder().WithScheme(s).WithObjectTracker(tracker).
